@@ -585,4 +585,377 @@ Section Main.
     destruct (reader r2 (VArr rows)) as [v2| | |]; cbn [bind]; try reflexivity.
     destruct (as_array v2) as [r| | |]; cbn [bind]; reflexivity.
   Qed.
+
+  (* ================================================================ *)
+  (* 7. derived tables                                                 *)
+  (* ================================================================ *)
+
+  (* FROM (q) alias : the SELECT runs over the rows of q's result wrapped by ProcessAlias *)
+  Theorem derived_is_rows n ctx s q alias :
+    s_from s = FDerived q alias ->
+    ex (S n) ctx (JStmt (SSelect s)) =
+    let ctx' := register_ctes ctx (s_with s) in
+    let! v := ex n ctx' (JStmt q) in
+    let! arr := as_array v in
+    ex (S n) ctx' (JRows s (process_alias arr alias)).
+  Proof.
+    intros Hf. rewrite exec_select_unfold, Hf. cbn zeta. cbn [build_from].
+    destruct (ex n (register_ctes ctx (s_with s)) (JStmt q)) as [v| | |]; cbn [bind]; try reflexivity.
+    destruct (as_array v) as [arr| | |]; cbn [bind]; reflexivity.
+  Qed.
+
+  (* ... which is what the same SELECT returns when the inner result is plain input under any key *)
+  Theorem derived_is_staged n d s q alias k :
+    s_with s = [] -> s_from s = FDerived q alias -> blind_select s = true ->
+    (forall v, ex n (plain d) (JStmt q) = Ok v -> exists rows, v = VArr rows) ->
+    ex (S n) (plain d) (JStmt (SSelect s)) =
+    let! v := ex n (plain d) (JStmt q) in
+    ex (S n) (plain (bind_doc d k v)) (JStmt (SSelect (set_from s (FTable [k] alias)))).
+  Proof.
+    intros Hw Hf Hb Harr. rewrite (derived_is_rows n (plain d) s q alias Hf), Hw.
+    change (register_ctes (plain d) []) with (plain d). cbn zeta.
+    destruct (ex n (plain d) (JStmt q)) as [v| | |] eqn:Hq; cbn [bind]; try reflexivity.
+    destruct (Harr v eq_refl) as (rows & ->). cbn [as_array bind].
+    rewrite exec_select_unfold. cbn [set_from s_with s_from]. rewrite Hw.
+    change (register_ctes (plain (bind_doc d k (VArr rows))) []) with (plain (bind_doc d k (VArr rows))).
+    cbn zeta.
+    rewrite (from_doc_arr (ex n) (bind_doc d k (VArr rows)) k [] alias rows)
+      by apply obj_get_set_same.
+    cbn [reader as_array bind]. rewrite exec_rows_unfold.
+    apply run_select_blind_exec; [exact Hb|apply same_pipeline_set_from].
+  Qed.
+
+  Theorem derived_is_staged_evals d s q alias k rows r :
+    s_with s = [] -> s_from s = FDerived q alias -> blind_select s = true ->
+    evals (plain d) (JStmt q) (Ok (VArr rows)) ->
+    (evals (plain d) (JStmt (SSelect s)) r <->
+     evals (plain (bind_doc d k (VArr rows))) (JStmt (SSelect (set_from s (FTable [k] alias)))) r).
+  Proof.
+    intros Hw Hf Hb Hin.
+    assert (Harr : forall m v, ex m (plain d) (JStmt q) = Ok v -> exists rows', v = VArr rows').
+    { intros m v Hv. exists rows.
+      assert (H := evals_agree _ _ _ m Hin). rewrite Hv in H.
+      specialize (H ltac:(discriminate)). inversion H. reflexivity. }
+    split.
+    - intros (Hr & n & Hn). destruct (evals_pos _ _ _ _ Hn Hr) as (m & ->).
+      rewrite (derived_is_staged m d s q alias k Hw Hf Hb (Harr m)) in Hn.
+      assert (Hm : ex m (plain d) (JStmt q) = Ok (VArr rows)).
+      { apply (evals_agree _ _ _ m Hin). intros Ho. rewrite Ho in Hn. cbn [bind] in Hn. auto. }
+      rewrite Hm in Hn. cbn [bind] in Hn. split; [exact Hr|eauto].
+    - intros (Hr & n & Hn). destruct Hin as (_ & n0 & Hn0).
+      split; [exact Hr|]. exists (S (Nat.max n n0)).
+      rewrite (derived_is_staged _ d s q alias k Hw Hf Hb (Harr _)).
+      rewrite (exec_mono_ok call join n0 _ _ _ _ Hn0 (Nat.le_max_r n n0)). cbn [bind].
+      apply (exec_mono call join n _ _ _ r Hn Hr). lia.
+  Qed.
+
+  (* ================================================================ *)
+  (* 8. row-scoped subqueries, IN, EXISTS                              *)
+  (* ================================================================ *)
+
+  (* a select-list subquery contributes what the subquery returns when run standalone on the scope
+     copy of the current row (the row's columns, plus `<-` bound to the enclosing document) *)
+  Theorem subquery_standalone n ctx s filtered cur q :
+    eval (mk_env (ex n) call join ctx s filtered) cur (ESub q) =
+    let! v := ex n (plain (scope cur (VObj (c_data ctx)))) (JStmt q) in Ok (RVal v).
+  Proof. reflexivity. Qed.
+
+  Theorem subquery_standalone_evals ctx s filtered cur q r :
+    evals (plain (scope cur (VObj (c_data ctx)))) (JStmt q) r ->
+    exists N, forall n, N <= n ->
+      eval (mk_env (ex n) call join ctx s filtered) cur (ESub q) = (let! v := r in Ok (RVal v)).
+  Proof.
+    intros H. destruct (evals_from _ _ _ H) as (N & HN). exists N. intros n Hn.
+    rewrite subquery_standalone, (HN n Hn). reflexivity.
+  Qed.
+
+  (* what the subquery's data is: the current row's columns ... *)
+  Lemma scope_column cur data k : k <> "<-"%string -> obj_get k (scope cur data) = obj_get k cur.
+  Proof. intros H. apply obj_get_set_other. exact H. Qed.
+  (* ... and, after `<-`, the enclosing document *)
+  Lemma scope_back cur data : obj_get "<-" (scope cur data) = data.
+  Proof. apply obj_get_set_same. Qed.
+
+  (* FROM `<-`.t... inside a row-scoped subquery reads table t of the enclosing document *)
+  Theorem subquery_root_from rec cur d k rest alias :
+    build_from rec join (plain (scope cur (VObj d))) (FTable ("<-"%string :: k :: rest) alias) =
+    build_from rec join (plain d) (FTable (k :: rest) alias).
+  Proof.
+    cbn [build_from plain c_ctes c_data cte_lookup find].
+    change (reader ("<-"%string :: k :: rest) (VObj (scope cur (VObj d))))
+      with (reader (k :: rest) (obj_get "<-" (scope cur (VObj d)))).
+    rewrite scope_back. reflexivity.
+  Qed.
+
+  (* FROM nested... inside a row-scoped subquery reads the current row's column *)
+  Theorem subquery_row_from rec cur data k rest alias :
+    k <> "<-"%string ->
+    build_from rec join (plain (scope cur data)) (FTable (k :: rest) alias) =
+    build_from rec join (plain cur) (FTable (k :: rest) alias).
+  Proof.
+    intros Hk. cbn [build_from plain c_ctes c_data cte_lookup find reader].
+    rewrite (scope_column cur data k Hk). reflexivity.
+  Qed.
+
+  (* ---------- IN (subquery) ---------- *)
+
+  Lemma in_candidate_rval r : in_candidate (RVal r) = sub_column r.
+  Proof. destruct r as [| | | | |[|[k v] [|]]]; reflexivity. Qed.
+
+  Lemma in_list_member lv : forall rs cols,
+    mapM sub_column rs = Ok cols ->
+    (forall c, In c cols -> exists z, vcompare lv c = Ok z) ->
+    in_list lv (map RVal rs) = Ok (member_sem lv cols).
+  Proof.
+    induction rs as [|a rs IH]; intros cols Hm Hc; cbn [mapM] in Hm.
+    - inversion Hm. reflexivity.
+    - apply bind_ok7 in Hm. destruct Hm as (c0 & Hc0 & Hm).
+      apply bind_ok7 in Hm. destruct Hm as (cs & Hcs & Hm). inversion Hm; subst cols.
+      cbn [map in_list]. rewrite in_candidate_rval, Hc0. cbn [bind].
+      destruct (Hc c0 (or_introl eq_refl)) as (z & Hz). rewrite Hz. cbn [bind].
+      unfold member_sem. cbn [existsb]. rewrite Hz.
+      destruct z; cbn [Z.eqb orb]; try reflexivity;
+        apply IH; auto; intros c Hin; apply Hc; right; exact Hin.
+  Qed.
+
+  (* x [NOT] IN (subquery): membership of x among the single columns of what the subquery returns
+     when run standalone on the scope copy of the current row *)
+  Theorem in_subquery n ctx s filtered cur neg a q l lv rs cols :
+    eval (mk_env (ex n) call join ctx s filtered) (scope cur (VObj (c_data ctx))) a = Ok l ->
+    value_of (scope cur (VObj (c_data ctx))) l = Ok lv ->
+    ex n (plain (scope cur (VObj (c_data ctx)))) (JStmt q) = Ok (VArr rs) ->
+    mapM sub_column rs = Ok cols ->
+    (forall c, In c cols -> exists z, vcompare lv c = Ok z) ->
+    eval (mk_env (ex n) call join ctx s filtered) cur (EInSub neg a q) =
+    Ok (RVal (VBool (xorb neg (member_sem lv cols)))).
+  Proof.
+    intros Ha Hv Hq Hcols Hcmp. cbn [eval].
+    change (e_data (mk_env (ex n) call join ctx s filtered)) with (VObj (c_data ctx)).
+    rewrite Ha. cbn [bind]. rewrite Hv. cbn [bind].
+    change (e_sub (mk_env (ex n) call join ctx s filtered) q (scope cur (VObj (c_data ctx))))
+      with (ex n (plain (scope cur (VObj (c_data ctx)))) (JStmt q)).
+    rewrite Hq. cbn [bind]. rewrite (in_list_member lv rs cols Hcols Hcmp). reflexivity.
+  Qed.
+
+  (* ---------- EXISTS ---------- *)
+
+  Fixpoint keep_by (bs : list bool) (ms : list row) : list row :=
+    match bs, ms with
+    | b :: bs', m :: ms' => if b then m :: keep_by bs' ms' else keep_by bs' ms'
+    | _, _ => []
+    end.
+
+  Lemma filter_rows_objs rec ctx s E ms :
+    filter_rows rec ctx s E (map VObj ms) =
+    let! bs := mapM (fun kv => eval_cond E kv (s_where s)) ms in Ok (map VObj (keep_by bs ms)).
+  Proof.
+    induction ms as [|m ms IH]; [reflexivity|]. cbn [map mapM]. rewrite filter_rows_obj7, IH.
+    destruct (eval_cond E m (s_where s)) as [b| | |]; cbn [bind]; try reflexivity.
+    destruct (mapM (fun kv => eval_cond E kv (s_where s)) ms) as [bs| | |]; cbn [bind]; try reflexivity.
+    destruct b; reflexivity.
+  Qed.
+
+  Lemma mapM_length {X Y} (f : X -> res Y) l l' : mapM f l = Ok l' -> List.length l' = List.length l.
+  Proof.
+    revert l'. induction l as [|a l IH]; intros l' H; cbn [mapM] in H.
+    - inversion H. reflexivity.
+    - apply bind_ok7 in H. destruct H as (b & _ & H). apply bind_ok7 in H. destruct H as (bs & Hbs & H).
+      inversion H. cbn [List.length]. rewrite (IH bs Hbs). reflexivity.
+  Qed.
+
+  Lemma existsb_keep : forall bs ms, List.length bs = List.length ms ->
+    existsb (fun b => b) bs = negb (Nat.eqb (List.length (keep_by bs ms)) 0).
+  Proof.
+    induction bs as [|b bs IH]; intros ms Hl; [reflexivity|].
+    destruct ms as [|m ms]; [discriminate|]. cbn [List.length] in Hl.
+    cbn [existsb keep_by]. destruct b; [reflexivity|]. apply IH. lia.
+  Qed.
+
+  Lemma window_none7 rs : window rs (List.length rs) None None = Ok rs.
+  Proof.
+    unfold window. destruct (Z.of_nat (List.length rs) <=? 0)%Z eqn:H0.
+    - destruct rs; [reflexivity | cbn [List.length] in H0; lia].
+    - rewrite Z.sub_0_r, Z.ltb_irrefl. unfold go_slice.
+      replace ((0 <=? 0)%Z && (0 <=? 0 + Z.of_nat (List.length rs))%Z &&
+               (0 + Z.of_nat (List.length rs) <=? Z.of_nat (List.length rs))%Z) with true by lia.
+      rewrite Nat.sub_diag. cbn [repeat]. rewrite app_nil_r. cbn [Z.to_nat skipn].
+      replace (Z.to_nat (0 + Z.of_nat (List.length rs) - 0)) with (List.length rs) by lia.
+      now rewrite firstn_all.
+  Qed.
+
+  (* the prepared subquery of EXISTS over object rows: WHERE row by row, then the select list *)
+  Lemma exists_run n ctx s ms :
+    exists_shape s ->
+    ex (S n) ctx (JRows s (map VObj ms)) =
+    catch_panic
+      (let! bs := mapM (fun kv => eval_cond (mk_env (ex n) call join ctx s []) kv (s_where s)) ms in
+       let kept := map VObj (keep_by bs ms) in
+       let! sel := exec_select (mk_env (ex n) call join ctx s kept) s kept in
+       Ok (VArr sel)).
+  Proof.
+    intros (Hg & Hd & Ho & Hl & Hof & _). rewrite exec_rows_unfold. unfold run_select. f_equal.
+    rewrite filter_rows_objs.
+    match goal with |- context [mapM ?f ms] => destruct (mapM f ms) as [bs| | |] end; cbn [bind]; try reflexivity. cbn zeta.
+    unfold exec_group_by. rewrite Hg. cbn [bind].
+    destruct (exec_select _ s (map VObj (keep_by bs ms))) as [sel| | |]; cbn [bind]; try reflexivity.
+    rewrite Hd, Ho, Hl, Hof. cbn [exec_distinct exec_order_by bind]. rewrite window_none7. reflexivity.
+  Qed.
+
+  Lemma exec_select_length E s rows sel :
+    s_group s = [] -> all_aggregate (s_items s) = false ->
+    exec_select E s rows = Ok sel -> List.length sel = List.length rows.
+  Proof.
+    intros Hg Ha. unfold exec_select. rewrite Hg, Ha. cbn [andb]. apply mapM_length.
+  Qed.
+
+  Lemma mapM_cons7 {X Y} (f : X -> res Y) a r :
+    mapM f (a :: r) = let! b := f a in let! bs := mapM f r in Ok (b :: bs).
+  Proof. reflexivity. Qed.
+
+  Lemma exec_select_star E s ms :
+    s_group s = [] -> s_items s = [IStar] ->
+    exec_select E s (map VObj ms) = Ok (map (fun kv => VObj (obj_merge [] kv)) ms).
+  Proof.
+    intros Hg Hi. unfold exec_select. rewrite Hg, Hi. cbn [all_aggregate forallb is_agg_item andb].
+    induction ms as [|m ms IH]; [reflexivity|]. cbn [map]. rewrite mapM_cons7, IH. reflexivity.
+  Qed.
+
+  Lemma merge_mapM cur elems :
+    mapM (fun item => match item with VObj kv => Ok (VObj (obj_merge kv cur)) | _ => Err end) elems =
+    let! ms := mapM (fun e => match e with VObj kv => Ok (obj_merge kv cur) | _ => Err end) elems in
+    Ok (map VObj ms).
+  Proof.
+    induction elems as [|e elems IH]; [reflexivity|]. cbn [mapM]. rewrite IH.
+    destruct e; cbn [bind]; try reflexivity.
+    match goal with |- context [mapM ?f elems] => destruct (mapM f elems) end; cbn [bind]; reflexivity.
+  Qed.
+
+  (* what e_exists computes, before the select list is looked at *)
+  Lemma exists_unfold n ctx s filtered cur s' k rest elems :
+    s_from s' = FTable (k :: rest) "" ->
+    reader (k :: rest) (VObj cur) = Ok (VArr elems) ->
+    e_exists (mk_env (ex (S n)) call join ctx s filtered) (SSelect s') cur =
+    let! ms := mapM (fun e => match e with VObj kv => Ok (obj_merge kv cur) | _ => Err end) elems in
+    let! out := ex (S n) (plain cur) (JRows s' (map VObj ms)) in
+    match out with VArr l => Ok (negb (Nat.eqb (List.length l) 0)) | _ => Err end.
+  Proof.
+    intros Hf Hread. cbn [mk_env e_exists]. rewrite Hf.
+    change (sub_ctx cur) with (plain cur).
+    cbn [build_from plain c_ctes c_data cte_lookup find]. rewrite Hread. cbn [bind as_array].
+    unfold process_alias. cbn [String.eqb]. rewrite merge_mapM.
+    match goal with |- context [mapM ?f elems] => destruct (mapM f elems) as [ms| | |] end; cbn [bind]; reflexivity.
+  Qed.
+
+  (* EXISTS (SELECT * FROM nested WHERE p) on the (scoped) outer row [cur]: element-wise reading *)
+  Theorem exists_star n ctx s filtered cur s' k rest elems :
+    exists_shape s' -> s_items s' = [IStar] -> s_from s' = FTable (k :: rest) "" ->
+    reader (k :: rest) (VObj cur) = Ok (VArr elems) ->
+    e_exists (mk_env (ex (S n)) call join ctx s filtered) (SSelect s') cur =
+    exists_sem (fun r => eval_cond (mk_env (ex n) call join (plain cur) s' []) r (s_where s')) cur elems.
+  Proof.
+    intros Hshape Hitems Hf Hread.
+    rewrite (exists_unfold n ctx s filtered cur s' k rest elems Hf Hread). unfold exists_sem.
+    match goal with |- context [mapM ?f elems] => destruct (mapM f elems) as [ms| | |] end; cbn [bind]; try reflexivity.
+    rewrite (exists_run n (plain cur) s' ms Hshape).
+    match goal with |- context [mapM ?f ms] => destruct (mapM f ms) as [bs| | |] eqn:Hbs end; cbn [bind catch_panic]; try reflexivity.
+    cbn zeta. destruct Hshape as (Hg & _).
+    rewrite (exec_select_star _ s' (keep_by bs ms) Hg Hitems). cbn [bind catch_panic].
+    rewrite map_length. rewrite (existsb_keep bs ms (mapM_length _ _ _ Hbs)). reflexivity.
+  Qed.
+
+  (* any select list that is not aggregate-only: whenever EXISTS has a value, it is the
+     element-wise one (the select list can only add failures, e.g. a projection error) *)
+  Theorem exists_sound n ctx s filtered cur s' k rest elems b :
+    exists_shape s' -> s_from s' = FTable (k :: rest) "" ->
+    reader (k :: rest) (VObj cur) = Ok (VArr elems) ->
+    e_exists (mk_env (ex (S n)) call join ctx s filtered) (SSelect s') cur = Ok b ->
+    exists_sem (fun r => eval_cond (mk_env (ex n) call join (plain cur) s' []) r (s_where s')) cur elems
+      = Ok b.
+  Proof.
+    intros Hshape Hf Hread.
+    rewrite (exists_unfold n ctx s filtered cur s' k rest elems Hf Hread). unfold exists_sem.
+    match goal with |- context [mapM ?f elems] => destruct (mapM f elems) as [ms| | |] end; cbn [bind]; try discriminate.
+    rewrite (exists_run n (plain cur) s' ms Hshape).
+    match goal with |- context [mapM ?f ms] => destruct (mapM f ms) as [bs| | |] eqn:Hbs end; cbn [bind catch_panic]; try discriminate.
+    cbn zeta. destruct Hshape as (Hg & _ & _ & _ & _ & Ha).
+    destruct (exec_select _ s' (map VObj (keep_by bs ms))) as [sel| | |] eqn:Hsel;
+      cbn [bind catch_panic]; try discriminate.
+    apply exec_select_length in Hsel; auto. rewrite Hsel, map_length.
+    rewrite (existsb_keep bs ms (mapM_length _ _ _ Hbs)). auto.
+  Qed.
+
+  (* the expression itself: the outer row handed to the subquery is the scope copy of the current
+     row, so p can also navigate back with `<-` *)
+  Theorem exists_expr n ctx s filtered current q :
+    eval (mk_env (ex n) call join ctx s filtered) current (EExists q) =
+    let! b := e_exists (mk_env (ex n) call join ctx s filtered) q (scope current (VObj (c_data ctx))) in
+    Ok (RVal (VBool b)).
+  Proof. reflexivity. Qed.
+
+  (* ================================================================ *)
+  (* 9. recursive CTEs are an error, not a divergence                  *)
+  (* ================================================================ *)
+
+  Lemma reads_cycle_err d ctes : forall busy k depth,
+    reads_cycle ctes busy k depth ->
+    forall n rest alias, depth <= n ->
+      build_from (ex n) join (mkctx d ctes busy) (FTable (k :: rest) alias) = Err.
+  Proof.
+    induction 1 as [busy k body Hl Hb|busy k s k' rest' alias' depth Hl Hb Hw Hf _ IH];
+      intros n rest alias Hn.
+    - cbn [build_from mkctx c_ctes c_busy]. rewrite Hl. unfold mem_str in Hb. rewrite Hb. reflexivity.
+    - rewrite (from_cte_unfold (ex n) d ctes busy k rest alias (SSelect s) Hl Hb).
+      destruct n as [|n]; [lia|].
+      rewrite exec_select_unfold, Hw, Hf, register_nil. cbn zeta.
+      rewrite (IH n rest' alias' ltac:(lia)). reflexivity.
+  Qed.
+
+  (* a query whose table is a CTE that (directly or through other CTEs) reads itself: every run with
+     at least depth+1 units of fuel returns an error *)
+  Theorem recursive_cte_is_error d s k rest alias depth :
+    s_from s = FTable (k :: rest) alias ->
+    reads_cycle (rev (s_with s)) [] k depth ->
+    forall n, S depth <= n -> ex n (plain d) (JStmt (SSelect s)) = Err.
+  Proof.
+    intros Hf Hc n Hn. destruct n as [|n]; [lia|].
+    rewrite composed_unfold, exec_select_unfold. cbn [clear_with set_with s_with s_from].
+    rewrite register_nil, Hf. cbn zeta.
+    rewrite (reads_cycle_err d (rev (s_with s)) [] k depth Hc n rest alias ltac:(lia)). reflexivity.
+  Qed.
+
+  (* WITH c AS (SELECT ... FROM c...) SELECT ... FROM c *)
+  Corollary self_recursive_cte_is_error d s c si rest alias rest' alias' n :
+    s_with s = [(c, SSelect si)] -> s_from s = FTable (c :: rest) alias ->
+    s_with si = [] -> s_from si = FTable (c :: rest') alias' ->
+    ex (S (S n)) (plain d) (JStmt (SSelect s)) = Err.
+  Proof.
+    intros Hw Hf Hwi Hfi. apply (recursive_cte_is_error d s c rest alias 1 Hf); [|lia].
+    rewrite Hw. cbn [rev app].
+    apply (rc_step _ [] c si c rest' alias' 0); auto using cte_lookup_single.
+    apply (rc_here _ [c] c (SSelect si)); [apply cte_lookup_single|].
+    unfold mem_str. cbn [existsb]. rewrite String.eqb_refl. reflexivity.
+  Qed.
+
+  (* WITH a AS (SELECT ... FROM b), b AS (SELECT ... FROM a) SELECT ... FROM a *)
+  Corollary mutually_recursive_ctes_are_error d s a b sa sb rest alias ra aa rb ab n :
+    a <> b ->
+    s_with s = [(a, SSelect sa); (b, SSelect sb)] -> s_from s = FTable (a :: rest) alias ->
+    s_with sa = [] -> s_from sa = FTable (b :: ra) aa ->
+    s_with sb = [] -> s_from sb = FTable (a :: rb) ab ->
+    ex (S (S (S n))) (plain d) (JStmt (SSelect s)) = Err.
+  Proof.
+    intros Hab Hw Hf Hwa Hfa Hwb Hfb. apply (recursive_cte_is_error d s a rest alias 2 Hf); [|lia].
+    rewrite Hw. cbn [rev app].
+    assert (Hla : cte_lookup a [(b, SSelect sb); (a, SSelect sa)] = Some (SSelect sa)).
+    { unfold cte_lookup. cbn [find fst]. apply String.eqb_neq in Hab.
+      rewrite String.eqb_sym, Hab, String.eqb_refl. reflexivity. }
+    assert (Hlb : cte_lookup b [(b, SSelect sb); (a, SSelect sa)] = Some (SSelect sb)).
+    { unfold cte_lookup. cbn [find fst]. rewrite String.eqb_refl. reflexivity. }
+    apply (rc_step _ [] a sa b ra aa 1); auto.
+    apply (rc_step _ [a] b sb a rb ab 0); auto.
+    - unfold mem_str. cbn [existsb]. apply String.eqb_neq in Hab.
+      rewrite String.eqb_sym, Hab. reflexivity.
+    - apply (rc_here _ [b; a] a (SSelect sa)); [exact Hla|].
+      unfold mem_str. cbn [existsb]. rewrite String.eqb_refl. apply Bool.orb_true_r.
+  Qed.
 End Main.
